@@ -30,6 +30,16 @@ type Opts struct {
 	Extra map[reflect.Type]func(*Item) error
 	// Conv: value of a Wire source type -> value of its wire type (ToItem only).
 	Conv map[reflect.Type]func(reflect.Value) (reflect.Value, error)
+
+	// Diagnosis switches. They never decide a verdict: after the strict rules
+	// rejected an input the real code accepted, the harness asks again with one
+	// rule relaxed; if the input then passes, the disagreement is attributed to
+	// exactly that rule (and gets its own violation signature).
+	//
+	// LenientRawByte: a raw-value position may hold a wrapped single byte (81 xx, xx < 0x80).
+	LenientRawByte bool
+	// LenientNilKind: under rlp:"nil" an empty value of either kind stands for nil.
+	LenientNilKind bool
 }
 
 var (
@@ -110,8 +120,21 @@ func emptyKind(t reflect.Type, o *Opts) byte {
 
 // node is one encoded value seen shallowly: its header and its full encoding.
 type node struct {
-	h   Hdr
-	enc []byte
+	h       Hdr
+	enc     []byte
+	wrapped bool // 81 xx with xx < 0x80: a header-level canonicity fault, judged where the type is known
+}
+
+// mkNode parses the header of the first value of b; the single-byte rule is
+// recorded, not enforced (accepts enforces it once it knows the position type).
+func mkNode(b []byte) (node, error) {
+	h, err := headerLoose(b)
+	if err != nil {
+		return node{}, err
+	}
+	n := node{h: h, enc: b[:h.Tag+h.Size]}
+	n.wrapped = h.Kind == 's' && h.Size == 1 && b[h.Tag] < 0x80
+	return n, nil
 }
 
 func (n node) isList() bool    { return n.h.Kind == 'l' }
@@ -130,15 +153,26 @@ func (n node) str() []byte {
 func split(b []byte) ([]node, error) {
 	var out []node
 	for len(b) > 0 {
-		h, err := Header(b)
+		n, err := mkNode(b)
 		if err != nil {
 			return nil, err
 		}
-		tot := h.Tag + h.Size
-		out = append(out, node{h, b[:tot]})
-		b = b[tot:]
+		out = append(out, n)
+		b = b[len(n.enc):]
 	}
 	return out, nil
+}
+
+// Count returns the number of consecutive values b consists of, judged by their
+// headers only.
+func Count(b []byte) (int, error) {
+	n, err := split(b)
+	for _, x := range n {
+		if x.wrapped {
+			return 0, ErrNonCanonByte
+		}
+	}
+	return len(n), err
 }
 
 // AcceptsEnc reports whether enc is exactly the canonical encoding of some
@@ -147,28 +181,33 @@ func split(b []byte) ([]node, error) {
 // their own header (the mapping documents that their content is not examined),
 // positions of interface type must be canonical all the way down.
 func AcceptsEnc(enc []byte, t reflect.Type, o *Opts) error {
-	h, err := Header(enc)
+	n, err := mkNode(enc)
 	if err != nil {
 		return err
 	}
-	if h.Tag+h.Size != uint64(len(enc)) {
+	if len(n.enc) != len(enc) {
+		if n.wrapped {
+			return ErrNonCanonByte
+		}
 		return ErrTrailing
 	}
-	return accepts(node{h, enc}, t, fieldTags{}, o)
+	return accepts(n, t, fieldTags{}, o)
 }
 
 // AcceptsPrefix is AcceptsEnc for the first value of b; it returns the length
 // of that value.
 func AcceptsPrefix(b []byte, t reflect.Type, o *Opts) (int, error) {
-	h, err := Header(b)
+	n, err := mkNode(b)
 	if err != nil {
 		return 0, err
 	}
-	n := int(h.Tag + h.Size)
-	return n, accepts(node{h, b[:n]}, t, fieldTags{}, o)
+	return len(n.enc), accepts(n, t, fieldTags{}, o)
 }
 
 func accepts(it node, t reflect.Type, tg fieldTags, o *Opts) error {
+	if it.wrapped && !(o != nil && o.LenientRawByte && o.Raw[t]) {
+		return ErrNonCanonByte
+	}
 	if o != nil {
 		if o.Raw[t] {
 			return nil
@@ -313,6 +352,9 @@ func accepts(it node, t reflect.Type, tg fieldTags, o *Opts) error {
 		if tg.nilOK && it.isEmpty() {
 			// nil is written as the empty value of the element's kind; only that
 			// empty value stands for nil
+			if o != nil && o.LenientNilKind {
+				return nil
+			}
 			switch emptyKind(t.Elem(), o) {
 			case 's':
 				if it.isList() {
@@ -486,6 +528,17 @@ type Hdr struct {
 // checks that the declared content fits into b. It does not look into list
 // content.
 func Header(b []byte) (Hdr, error) {
+	h, err := headerLoose(b)
+	if err != nil {
+		return Hdr{}, err
+	}
+	if h.Kind == 's' && h.Size == 1 && b[h.Tag] < 0x80 {
+		return Hdr{}, ErrNonCanonByte
+	}
+	return h, nil
+}
+
+func headerLoose(b []byte) (Hdr, error) {
 	if len(b) == 0 {
 		return Hdr{}, ErrEmpty
 	}
@@ -518,9 +571,6 @@ func Header(b []byte) (Hdr, error) {
 	}
 	if h.Size > uint64(len(b))-h.Tag {
 		return Hdr{}, ErrTruncated
-	}
-	if h.Kind == 's' && h.Size == 1 && b[h.Tag] < 0x80 {
-		return Hdr{}, ErrNonCanonByte
 	}
 	return h, nil
 }
@@ -597,4 +647,45 @@ func (it *Item) MaxDepth() int {
 		}
 	}
 	return max
+}
+
+// EncodeLinear returns the same bytes as Encode in time linear in the output
+// (Encode copies every payload once per nesting level, which is quadratic on
+// the 10k+ deep nestings of the allocation workload).
+func EncodeLinear(it *Item) []byte {
+	sizes := map[*Item]int{}
+	var size func(*Item) int
+	size = func(x *Item) int {
+		if !x.IsList {
+			if len(x.Str) == 1 && x.Str[0] < 0x80 {
+				return 1
+			}
+			return len(lenPrefix(len(x.Str), 0x80)) + len(x.Str)
+		}
+		p := 0
+		for _, c := range x.List {
+			p += size(c)
+		}
+		sizes[x] = p
+		return len(lenPrefix(p, 0xc0)) + p
+	}
+	out := make([]byte, 0, size(it))
+	var emit func(*Item)
+	emit = func(x *Item) {
+		if !x.IsList {
+			if len(x.Str) == 1 && x.Str[0] < 0x80 {
+				out = append(out, x.Str[0])
+				return
+			}
+			out = append(out, lenPrefix(len(x.Str), 0x80)...)
+			out = append(out, x.Str...)
+			return
+		}
+		out = append(out, lenPrefix(sizes[x], 0xc0)...)
+		for _, c := range x.List {
+			emit(c)
+		}
+	}
+	emit(it)
+	return out
 }
